@@ -220,6 +220,61 @@ fn main() {
             .get("max_trees")
             .and_then(|x| x.as_u64())
             .unwrap_or(200) as usize;
+        // "reuse": one LR parser instance for the whole input sequence of the case
+        if case.get("reuse").and_then(|x| x.as_bool()) == Some(true) && lr_runnable {
+            let (lm, go, skip_ws, partial) = (cfg.lm, cfg.go, cfg.skip_ws, cfg.partial);
+            let texts: Vec<&'static str> = inputs
+                .iter()
+                .map(|i| &*Box::leak(i["text"].as_str().unwrap().to_string().into_boxed_str()))
+                .collect();
+            let (tx, rx) = mpsc::channel();
+            let texts2 = texts.clone();
+            progress(ci, 0, "lr");
+            std::thread::Builder::new()
+                .stack_size(256 << 20)
+                .spawn(move || {
+                    def.install(lm, go);
+                    let mut session = dynparser::LrSession::new(def, recs, partial, skip_ws);
+                    for t in texts2 {
+                        let r = std::panic::catch_unwind(std::panic::AssertUnwindSafe(|| session.parse(t)));
+                        let poisoned = r.is_err();
+                        let _ = tx.send(r.map_err(|_| "panic".to_string()));
+                        if poisoned {
+                            session = dynparser::LrSession::new(def, recs, partial, skip_ws);
+                        }
+                    }
+                })
+                .unwrap();
+            for (ii, inp) in inputs.iter().enumerate() {
+                let (res, ev, tree, hung) = match rx.recv_timeout(Duration::from_millis(timeout_ms)) {
+                    Ok(Ok((a, b, c))) => (a, b, c, false),
+                    Ok(Err(p)) => (dynparser::panic_json(&p), vec![], dynparser::empty_tree(), false),
+                    Err(_) => {
+                        let mut h = dynparser::panic_json("timeout");
+                        h["k"] = json!("hang");
+                        (h, vec![], dynparser::empty_tree(), true)
+                    }
+                };
+                let text = texts[ii];
+                let out = json!({
+                    "id": id, "iid": inp.get("iid").cloned().unwrap_or(json!(0)),
+                    "g": gref, "g2": 0, "algo": cfg.algo, "partial": partial,
+                    "bytes": text.bytes().map(|b| json!(b)).collect::<Vec<_>>(),
+                    "lex": inp.get("lex").cloned().unwrap_or(json!([])),
+                    "lat": json!([]),
+                    "meta": inp.get("meta").cloned().unwrap_or(json!({})),
+                    "res": res, "ev": ev, "tree": tree,
+                    "gres": dynparser::none_json(), "forest": dynparser::no_forest(),
+                });
+                writeln!(traces, "{}", out).unwrap();
+                if hung {
+                    traces.flush().unwrap();
+                    eprintln!("HANG case_index={ci}");
+                    std::process::exit(3);
+                }
+            }
+            continue;
+        }
         for (ii, inp) in inputs.into_iter().enumerate() {
             if let Some(r) = resume {
                 if ii < r {
